@@ -14,7 +14,10 @@ from fractions import Fraction
 
 import numpy as np
 
-from .common import Case, ints, rat, rats, parse_rats
+import re
+import warnings
+
+from .common import Case, ints, rat, rats, parse_rats, fx
 
 FILES = ["quantecon/game_theory/normal_form_game.py", "quantecon/game_theory/polymatrix_game.py",
          "quantecon/game_theory/game_converters.py", "quantecon/game_theory/logitdyn.py",
@@ -49,12 +52,35 @@ def acts_str(acts):
 # ----------------------------------------------------------------------------------------------
 # definition-level oracle ("truth"): u[profile] = tuple of the N payoffs (python numbers)
 
+def same(x, w):
+    """the code's number x IS the oracle's number w: same kind (integer / float), integers equal as
+    integers (no detour through float64), floats equal bit for bit (so -0.0 is not 0.0)"""
+    xf, wf = isinstance(x, float), isinstance(w, float)
+    if xf != wf:
+        return False
+    if wf:
+        return fx(x) == fx(w)
+    return int(x) == int(w)
+
+
+_INT_TOKEN = re.compile(r"[+-]?[0-9]+$")
+
+
+def gam_token_value(t):
+    """the number a GAM token denotes: an integer literal is an integer (exactly), anything else a double"""
+    return int(t) if _INT_TOKEN.match(t) else float(t)
+
+
 class Truth:
-    def __init__(self, nums, u):
+    def __init__(self, nums, u, kind=None):
         self.nums, self.u = tuple(nums), u
+        if kind is None:
+            v0 = next(iter(u.values()))[0]
+            kind = "f" if isinstance(v0, float) else "i"
+        self.kind = kind      # 'i': integer payoffs (int dtype), 'f': doubles
 
     def copy(self):
-        return Truth(self.nums, dict(self.u))
+        return Truth(self.nums, dict(self.u), self.kind)
 
     @property
     def N(self):
@@ -74,7 +100,7 @@ class Truth:
             if q[p] > a:
                 q[p] -= 1
             u[tuple(q)] = v
-        return Truth(nums, u)
+        return Truth(nums, u, self.kind)
 
     def sigma(self, j, act, b):
         """probability that player j's action `act` puts on pure action b"""
@@ -117,6 +143,10 @@ def check_views(ctx, g, T, where, replay):
     if ppa.shape != T.nums + (N,):
         ctx.spec_fail("views", "%s: payoff_profile_array shape %s" % (where, ppa.shape), replay)
         return
+    kinds = [ppa.dtype.kind, np.dtype(g.dtype).kind] + [p.payoff_array.dtype.kind for p in g.players]
+    if any(k != T.kind for k in kinds):
+        ctx.spec_fail("dtype", "%s: dtype kinds %s (profile array, game, players), payoffs are of kind %r" % (where, kinds, T.kind), replay)
+        return
     ppl = ppa.tolist()
     pls = [p.payoff_array.tolist() for p in g.players]
     for i, p in enumerate(g.players):
@@ -132,12 +162,12 @@ def check_views(ctx, g, T, where, replay):
         want = T.u[prof]
         a = dig(ppl, prof)
         if N == 1:
-            b = [g[prof[0]]]
+            b = np.atleast_1d(g[prof[0]]).tolist()
         else:
-            b = list(g[prof])
+            b = g[prof].tolist()
         c = [dig(pls[i], prof[i:] + prof[:i]) for i in range(N)]
         for i in range(N):
-            if not (a[i] == want[i] and b[i] == want[i] and c[i] == want[i]):
+            if not (same(a[i], want[i]) and same(b[i], want[i]) and same(c[i], want[i])):
                 ctx.spec_fail("views", "%s: payoff of player %d at %s: profile_array %r, g[.] %r, players[i] %r, "
                               "definition %r" % (where, i, prof, a[i], b[i], c[i], want[i]),
                               dict(replay, profile=list(prof), player=i))
@@ -237,7 +267,20 @@ def run(ctx):
                 5e-324, 2.2250738585072014e-308, -1e-7, 3.141592653589793, 9007199254740993.0, 0.1 + 0.7]
     huge = [1e15 + 0.125, 1e22]
 
+    # integers that do not survive a detour through float64 / that sit at the int64 limits
+    bigints = [2 ** 53 + 1, -(2 ** 53 + 1), 2 ** 53 + 3, 2 ** 62 - 1, -(2 ** 62 - 1), -(2 ** 63), 2 ** 63 - 1,
+               10 ** 17 + 1, 12345678901234567, 123456789012345678, 1234567890123456789, -999999999999999999,
+               9223372036854775783, -4611686018427387905, 36028797018963969]
+    # doubles at the ends of the range, and the two zeros
+    extfloats = [1.7976931348623157e308, -1.7976931348623157e308, 5e-324, -5e-324, -0.0, 0.0, 2.2250738585072014e-308,
+                 2.225073858507201e-308, 1e-300, -1e300, 9007199254740992.0, 1.0000000000000002e-200, 8.98846567431158e307]
+    EXT = ("bigint", "extf")     # classes on which only the index-level calls are exercised (arithmetic would overflow)
+
     def value(cls):
+        if cls == "bigint":
+            return rng.choice(bigints) if rng.random() < 0.6 else rng.randint(-9, 9)
+        if cls == "extf":
+            return rng.choice(extfloats) if rng.random() < 0.6 else rng.uniform(-10, 10)
         if cls == "int":
             return rng.randint(-9, 9)
         if cls == "dyad":
@@ -283,10 +326,10 @@ def run(ctx):
 
     # ---- constructors: (line part, game, truth, cls, is_poly) -----------------------------------
     def np_dtype(cls):
-        return np.int64 if cls == "int" else np.float64
+        return np.int64 if cls in ("int", "bigint") else np.float64
 
     def make_game():
-        cls = rng.choice(["int", "int", "dyad", "dyad", "f17", "f17"])
+        cls = rng.choice(["int", "int", "dyad", "dyad", "f17", "f17", "bigint", "bigint", "extf"])
         kind = rng.choice(["prof", "prof", "prof", "zeros", "sym", "players", "gam", "poly"])
         dt = np_dtype(cls)
         if kind == "sym":
@@ -301,11 +344,12 @@ def run(ctx):
         N = len(nums)
         if kind == "zeros":
             cur["call"] = {"ctor": "zeros", "nums": list(nums)}
-            g = NormalFormGame(nums) if cls != "int" else NormalFormGame(nums, dtype=int)
-            u = {p: tuple([0 if cls == "int" else 0.0] * N) for p in itertools.product(*[range(n) for n in nums])}
+            isint = cls in ("int", "bigint")
+            g = NormalFormGame(nums) if not isint else NormalFormGame(nums, dtype=int)
+            u = {p: tuple([0 if isint else 0.0] * N) for p in itertools.product(*[range(n) for n in nums])}
             return ("ctor=zeros nums=%s" % ints(nums), g, Truth(nums, u), cls, True, {"ctor": "zeros", "nums": list(nums)})
         if kind == "poly" and N >= 2:
-            pcls = cls if cls != "f17" else "dyad"
+            pcls = cls if cls in ("int", "dyad") else "dyad"
             pm = {(i, j): np.array([[value(pcls) for _ in range(nums[j])] for _ in range(nums[i])], dtype=float)
                   for i in range(N) for j in range(N) if i != j}
             cur["call"] = {"ctor": "poly", "nums": list(nums), "polymatrix": {"%d,%d" % k: v.tolist() for k, v in pm.items()}}
@@ -432,7 +476,8 @@ def run(ctx):
                         ctx.spec_fail("getitem-malformed", "g[%s] returned %r" % (key, r), dict(replay, index=prof))
                     else:
                         want = T.u[tprof]
-                        if [x for x in np.atleast_1d(r).tolist()] != list(want):
+                        got_l = np.atleast_1d(r).tolist()
+                        if len(got_l) != len(want) or not all(same(x, w) for x, w in zip(got_l, want)):
                             ctx.spec_fail("getitem", "g[%s] = %r, definition %r" % (key, r, want), dict(replay, index=prof))
                 except (IndexError, TypeError, ValueError) as e:
                     out = "ERR:" + type(e).__name__
@@ -441,6 +486,8 @@ def run(ctx):
                         ctx.spec_fail("getitem", "g[%s] raised %s" % (key, out), dict(replay, index=prof))
                 return "get:%s" % ints(prof), out, g, T, is_poly
             vals = [value(cls) for _ in range(N)]
+            if T.kind == "f":
+                vals = [float(v) for v in vals]     # a float game stores doubles
             if malformed and kind == "range" and rng.random() < 0.3 and N >= 2:
                 vals = vals[:-1]
                 prof = [p % n for p, n in zip(prof, T.nums)]
@@ -768,7 +815,7 @@ def run(ctx):
             try:
                 if int(toks[0]) != N or tuple(int(t) for t in toks[1:1 + N]) != T.nums:
                     raise ValueError
-                nums_w = [float(t) for t in toks[1 + N:]]
+                nums_w = [gam_token_value(t) for t in toks[1 + N:]]
                 na = int(np.prod(T.nums))
                 if len(nums_w) != N * na:
                     raise ValueError
@@ -778,15 +825,46 @@ def run(ctx):
             # spec: number k of player i's block is the payoff at the profile whose first player's action varies fastest
             for i in range(N):
                 for k, q in enumerate(itertools.product(*[range(n) for n in reversed(T.nums)])):
-                    if nums_w[i * na + k] != T.u[tuple(reversed(q))][i]:
+                    if not same(nums_w[i * na + k], T.u[tuple(reversed(q))][i]):
                         ctx.spec_fail("gam-write", "player %d number %d is %r, payoff at %s is %r" % (
                             i, k, nums_w[i * na + k], tuple(reversed(q)), T.u[tuple(reversed(q))][i]), dict(replay, text=s[:500]))
                         break
             out = "g%s/%s" % (ints(T.nums), ";".join(rats(F(x) for x in nums_w[i * na:(i + 1) * na]) for i in range(N)))
+            # spec: the game read back holds exactly the numbers of the game written (integers as integers,
+            # doubles bit for bit, same dtype kind), in every player's array
+            try:
+                bad = None
+                for i, pl in enumerate(g2.players):
+                    if pl.payoff_array.dtype.kind != T.kind:
+                        bad = "player %d dtype %s, payoffs are of kind %r" % (i, pl.payoff_array.dtype, T.kind)
+                        break
+                    nested = pl.payoff_array.tolist()
+                    for q in T.profiles():
+                        x = nested
+                        for k in q[i:] + q[:i]:
+                            x = x[k]
+                        if not same(x, T.u[q][i]):
+                            bad = "player %d at %s: read back %r, written %r" % (i, q, x, T.u[q][i])
+                            break
+                    if bad:
+                        break
+            except Exception as e:
+                bad = "reading the result raised %s: %s" % (type(e).__name__, e)
+            if bad:
+                ctx.spec_fail("gam-roundtrip", "from_gam(to_gam(g)) is not g: %s" % bad, dict(replay, text=s[:800]))
+            if T.kind == "i" and any(abs(x) > 2 ** 53 for v in T.u.values() for x in v):
+                ctx.count("gam:int>2^53")
             return "gam", out, g2, T, is_poly
         if name == "logit":
             which = rng.randrange(3)
-            if which == 0 or N != 2:
+            if cls in EXT:
+                # only the constructor that the anchor names; its arithmetic overflows on these payoffs,
+                # which is irrelevant here: the stored arrays must stay what they are
+                with np.errstate(all="ignore"), warnings.catch_warnings():
+                    warnings.simplefilter("ignore")
+                    LogitDynamics(g, beta=1.0)
+                ctx.count("dynamics:LogitDynamics")
+            elif which == 0 or N != 2:
                 LogitDynamics(g, beta=rng.choice([0.5, 1.0, 2.0]))
                 ctx.count("dynamics:LogitDynamics")
             elif which == 1:
@@ -883,9 +961,36 @@ def run(ctx):
     if g1.payoff_profile_array.tolist() != D.tolist():
         ctx.spec_fail("gam-digits", "GAM round trip of a 3x2 game with 17-digit payoffs is not exact", {"payoff_profile_array": D.tolist()})
 
+    # integer payoffs beyond 2^53 must come back as the same integers (no detour through float64), int dtype kept:
+    # writer -> reader through a string and through a file, and the reader on hand-written text
+    big = [2 ** 53 + 1, -(2 ** 53 + 1), 2 ** 62 - 1, -(2 ** 63), 2 ** 63 - 1, 1234567890123456789, 10 ** 17 + 1, 7,
+           -999999999999999999, 0, 36028797018963969, -3]
+    Db = np.array(big, dtype=np.int64).reshape(3, 2, 2)
+    gb = NormalFormGame(Db)
+    fnb = os.path.join(tmpdir, "big.gam")
+    to_gam(gb, fnb)
+    hand = "2\n3 2\n\n" + " ".join(str(Db[a, b, i]) for i in range(2) for b in range(2) for a in range(3)) + "\n"
+    for how, rd in (("string", lambda: GAMReader.from_string(to_gam(gb))), ("file", lambda: from_gam(fnb)),
+                    ("hand-written text", lambda: GAMReader.from_string(hand))):
+        try:
+            g1 = rd()
+            back = g1.payoff_profile_array
+            okb = back.dtype.kind == "i" and back.tolist() == Db.tolist()
+            msg = "dtype %s, payoffs %s" % (back.dtype, back.tolist())
+        except Exception as e:
+            okb, msg = False, "raised %s: %s" % (type(e).__name__, e)
+        if not okb:
+            ctx.spec_fail("gam-int-exact", "GAM %s round trip of an int64 game with payoffs %s: %s" % (how, big, msg),
+                          {"payoff_profile_array": Db.tolist(), "how": how, "text": hand if how != "file" else open(fnb).read()})
+    fixed("C14 run ctor=prof shape=3,2,2 data=%s ops=gam|get:0,0" % rats(big), NormalFormGame(Db),
+          [("gam", lambda g: ("g3,2/" + ";".join(rats(int(Db[a, b, i]) for b in range(2) for a in range(3)) for i in range(2)),
+                              GAMReader.from_string(to_gam(g)))), ("get", _get((0, 0)))])
+
     alphabet = ["get", "set", "del", "pv", "br", "isbr", "nash", "dom", "profarr", "reprof", "replayers", "gam",
                 "logit", "polyrt", "delm"]
     weights = [3, 5, 5, 5, 4, 4, 4, 4, 2, 2, 1, 3, 2, 2, 3]
+
+    ext_ops = ["get", "set", "del", "delm", "profarr", "reprof", "replayers", "gam", "gam", "logit"]
 
     def history(names=None, game=None):
         if game is None:
@@ -916,6 +1021,8 @@ def run(ctx):
         big = T.N >= 2 and sum(1 for n in T.nums if n >= 2) >= 2
         for k in range(L):
             name = rng.choices(alphabet, weights)[0] if names is None else names[k]
+            if cls in EXT and name not in ext_ops:
+                name = rng.choice(ext_ops)
             cur["call"] = name
             try:
                 res = do_op(g, T, cls, is_poly, name, replay)
